@@ -128,6 +128,14 @@ def run_check(prop_id: str, tier: str, seed: int, cap_s: float = None) -> int:
         mod.prepare(tier)
     cases = list(mod.cases(tier))
     ncases = len(cases)
+    # replay artefacts of earlier runs of this property are stale by definition
+    rdir = os.path.join(REPLAY_DIR, prop_id)
+    if os.path.isdir(rdir):
+        for fn in os.listdir(rdir):
+            try:
+                os.remove(os.path.join(rdir, fn))
+            except OSError:
+                pass
     # VERIF_SEED only rotates the order in which shards are handed out and which samples are kept.
     rot = seed % max(ncases, 1)
     order = cases[rot:] + cases[:rot]
